@@ -12,9 +12,9 @@ FUNCTIONS = [
 STUBS = ["transport -> recording ITransport; the ERROR travels callee -> caller through marshal()/parse() and through the JSON serializer (real codec on concrete data)", "loggers -> empty bodies"]
 ASSUMPTIONS = [
     "exception classes from a menu of 8 shapes; positional arguments include free integers, keyword arguments from a menu ('across every serializer' is covered for JSON here and by the C03 codec contract otherwise)",
-    "a keyword argument literally named 'error' collides with ApplicationError's own first parameter; not part of the menu",
+    "keyword-argument names that collide with parameter / attribute names on the receiving side (error, self, callee, enc_algo, ...) are driven by the peerkw units with a free integer value",
 ]
-BOUNDS = {"quick": "8 exception-class shapes x 4 argument shapes (free 64-bit integers) x 3 keyword shapes x traceback on/off x {direct functions, full call through two sessions}", "thorough": "same, plus msgpack/cbor codecs on concrete values"}
+BOUNDS = {"quick": "8 exception-class shapes x 4 argument shapes (free 64-bit integers) x 3 keyword shapes x traceback on/off x {direct functions, full call through two sessions}; 11 colliding keyword names x 3 receiver registrations x args on/off", "thorough": "same, plus msgpack/cbor codecs on concrete values"}
 EXPECT_COVERS = ["cls:registered", "cls:fallback", "uri:registered", "uri:runtime_error", "uri:carried", "e2e"]
 BUDGET = {"quick": dict(wall_s=200, max_paths=20000, diff_samples=4), "thorough": dict(wall_s=1200)}
 
@@ -203,9 +203,51 @@ def end_to_end(sx, shape, ash, ksh, codec):
     return [shape, type(got[0]).__name__ if got else None]
 
 
+PEER_KEYS = ["error", "self", "args", "kwargs", "msg", "callee", "callee_authid", "callee_authrole", "enc_algo", "forward_for", "traceback"]
+
+
+def peer_kwargs(sx, key, registered, with_args):
+    """an ERROR from a peer (any WAMP implementation) whose keyword arguments use a name that also is a parameter / attribute name on
+    the receiving side: the pending call still fails exactly once, with the carried URI and the same keyword arguments"""
+    from autobahn.wamp import message
+    from autobahn.wamp.exception import ApplicationError
+    clock, trace, caller, t = wamplib.joined_session(sx)
+    C = _classes()
+    _register(caller, C)
+    got = []
+    d = caller.call("com.p")
+    d.addErrback(lambda f: got.append(f.value))
+    rid = t.sent[-1].request
+    uri = {"no": "com.other.error", "generic-ctor": "com.myapp.error.decorated", "kwargs-ctor": "com.myapp.error.deckw"}[registered]
+    v = sx.int("v", 0, 2 ** 53)
+    kw = {key: v}
+    args = [1, 2] if with_args else None
+    info = dict(key=key, registered=registered, with_args=with_args)
+    try:
+        caller.onMessage(message.Error(message.Call.MESSAGE_TYPE, rid, uri, args=args, kwargs=dict(kw)))
+    except Exception as x:  # noqa
+        sx.fail("error-lost:exception-escapes-caller-onMessage", info=dict(info, exc=repr(x)), known=[("C18-kwargs-reserved-name:" + key, True)])
+        return ["exc"]
+    sx.check(len(got) == 1, "pending-call-fails-exactly-once", info=info)
+    if got:
+        x = got[0]
+        if isinstance(x, ApplicationError):
+            sx.check(x.error == uri, "uri-preserved", info=dict(info, got=x.error))
+        sx.check(tuple(x.args) == tuple(args or ()), "args-preserved", info=dict(info, got=repr(x.args)))
+        have = getattr(x, "kwargs", None)
+        ok = have is not None and set(have) == {key} and bool(have[key] == v)
+        sx.check(ok, "kwargs-preserved", info=dict(info, got=repr(have)), known=[("C18-kwargs-reserved-name:" + key, True)])
+    sx.cover("e2e")
+    return [key, type(got[0]).__name__ if got else None]
+
+
 def units(tier):
     U = []
     q = tier == "quick"
+    for key in PEER_KEYS:
+        for registered in ("no", "generic-ctor", "kwargs-ctor"):
+            for with_args in (False, True):
+                U.append(("peerkw/%s/%s/%s" % (key, registered, "args" if with_args else "-"), "peer_kwargs", dict(key=key, registered=registered, with_args=with_args)))
     for shape in SHAPES:
         for ash in ARGS:
             for ksh in KW:
